@@ -91,7 +91,7 @@ def validated_loop(ctx, rid, b, key, validator, coll_pred, what, through=()):
         c, nx = hits[0]
         ctx.ob(rid, key + "|validated", True, "%s must be passed to %s inside a loop over the whole collection" % (what, validator), site=c.span)
         fail_t = None
-        be = b.bool_edges(c.target) if c.target is not None else None
+        be = b.branch_on_call(c)
         if be and be[0] == c.result_term():
             fail_t = be[2]
         else:
@@ -137,10 +137,10 @@ def validated_loop(ctx, rid, b, key, validator, coll_pred, what, through=()):
                     fail_t = ([tg for v, tg in si[1] if v == 1] or [None])[0]
                     break
         elif s_.matches("Iterator::any") and invalid_when_true:
-            be = b.bool_edges(s_.target)
+            be = b.branch_on_call(s_)
             fail_t = be[1] if be and be[0] == s_.result_term() else None
         elif s_.matches("Iterator::all") and not invalid_when_true:
-            be = b.bool_edges(s_.target)
+            be = b.branch_on_call(s_)
             fail_t = be[2] if be and be[0] == s_.result_term() else None
         ctx.ob(rid, key + "|validated", True, "%s must be passed to %s for the whole collection" % (what, validator), site=s_.span)
         ctx.ob(rid, key + "|rejects", fail_t is not None and rejecting(b, fail_t), "an invalid %s must make the constructor return Err" % what, site=s_.span)
@@ -163,7 +163,7 @@ def rule_R2(ctx, f):
     hs = [c for c in b.calls_to(["String::is_empty", "str::is_empty"]) if peel(c.args[0]) == P(2)]
     ok = False
     if len(hs) == 1:
-        be = b.bool_edges(hs[0].target)
+        be = b.branch_on_call(hs[0])
         ok = be is not None and be[0] == hs[0].result_term() and rejecting(b, be[1]) and all(b.edge_dominates(hs[0].target, be[2], x) for x in okb)
     ctx.ob(rid, "Desc::new|help-non-empty", ok, "an empty help string must be rejected before Ok", site=hs[0].span if hs else b.raw["span"]["at"])
     # metric name
@@ -238,7 +238,7 @@ def rule_R3(ctx, f):
             src = [e for e in src if e and peel(e[0]) == coll]
             if not src:
                 continue
-            be = b.bool_edges(c.target)
+            be = b.branch_on_call(c)
             if be:
                 cnd, neg = be[0], False
                 if cnd[0] == "unop" and cnd[1] == "Not":
@@ -255,7 +255,7 @@ def rule_R3(ctx, f):
         e = elem_of(a)
         container = peel(_sq._resolve_join(c.args[0], b))
         if e and peel(e[0]) == P(3) and (container == nameset or container == P(4)):
-            be = b.bool_edges(c.target)
+            be = b.branch_on_call(c)
             if be and be[0] == c.result_term() and rejecting(b, be[1]):
                 # the set holds raw const names: some insert puts the const key itself (not a formatted string)
                 def uncow(t_):
@@ -301,7 +301,7 @@ def rule_R4(ctx, f):
             a0, a1 = peel(eqs[0].args[0]), peel(eqs[0].args[1])
             other = a1 if a0 == P(1) else a0
             isconst = other[0] in ("const", "constdef") or (other[0] == "other")
-            be = c.bool_edges(eqs[0].target)
+            be = c.branch_on_call(eqs[0])
             eq = eqs[0].matches("PartialEq::eq")
             ok = (a0 == P(1) or a1 == P(1)) and be is not None and rejecting(c, be[1] if eq else be[2])
         ctx.ob(rid, "check_bucket_label|rejects-equal", ok, "check_bucket_label must return Err exactly when the label equals the reserved name", site=c.raw["span"]["at"])
@@ -403,7 +403,7 @@ def rule_R5(ctx, f):
         for c in r.calls_to(["HashMap::contains_key"]):
             if SELF_FIELD("labels") in list(subterms(c.args[0])):
                 e = elem_of(peel(c.args[1], transparent=["Deref::deref", "LabelPair::name", "String::as_str", "AsRef::as_ref", "get_name"]))
-                be = r.bool_edges(c.target) if c.target is not None else None
+                be = r.branch_on_call(c)
                 if e and peel(e[0])[0] == "field" and not [a for a in e[1] if a not in ("iter", "into_iter")] and be and be[0] == c.result_term():
                     direct.setdefault(peel(e[0])[2], []).append(rejecting(r, be[1]))
                     hdr = [n_ for n_ in r.calls_to("Iterator::next") if n_.result_term() in list(subterms(c.args[1]))]
